@@ -5,32 +5,54 @@ Glue between the step specifications and the property theorems of C10, the execu
 -/
 namespace GceTcb.CA
 
-/-- facts about one run, extracted from the step-by-step specifications -/
+theorem and_false_cases' {a b : Bool} (h : (a && !b) = false) : a = false ∨ b = true := by
+  cases a <;> cases b <;> simp_all
+
+/-- facts about one run, extracted from the step-by-step specifications: whatever the script, the state
+    that survives satisfies the invariant and the log destroy-after-commit; a normal return moved the
+    primary to the next name and means the target object was not claimed by another key version; a crash
+    needs a fault; an error needs a fault, `overwrite = false`, or a claimed target object. -/
 theorem rotate_run_facts (cfg : Cfg) (req : Req) (sc : Nat → Fault) (s : St)
     (hb : BumpOK cfg) (hi : Inv cfg s) (hf : Fresh cfg req s) :
     match rotateKey cfg req sc s.reload with
-    | .ok k s' => Inv cfg s' ∧ DAC cfg s'.log ∧ primaryOf cfg s' = k ∧ k = cfg.bump (primaryOf cfg s)
-    | .err s' => (Inv cfg s' ∧ DAC cfg s'.log) ∧ (¬ NoFault sc ∨ cfg.overwrite = false)
+    | .ok k s' => Inv cfg s' ∧ DAC cfg s'.log ∧ primaryOf cfg s' = k ∧ k = cfg.bump (primaryOf cfg s) ∧ ¬ Claimed cfg req s
+    | .err s' => (Inv cfg s' ∧ DAC cfg s'.log) ∧ (¬ NoFault sc ∨ cfg.overwrite = false ∨ Claimed cfg req s)
     | .crash s' => (Inv cfg s' ∧ DAC cfg s'.log) ∧ ¬ NoFault sc := by
   cases hca : cfg.ca with
   | gcsca =>
     unfold Inv at hi; rw [hca] at hi
     obtain ⟨m0, r, c0, path0, h0⟩ := hi
     unfold Fresh at hf; rw [hca] at hf
-    obtain ⟨ht1, ht2, ht3⟩ := hf m0 h0.man
+    obtain ⟨ht1, ht2⟩ := hf m0 h0.man
     have hP : Ph cfg m0 r c0 path0 false none s.reload :=
       ⟨h0.transfer rfl rfl, Or.inl rfl, fun e he => (by cases he), fun _ _ e => (by cases e)⟩
     have hp0 : primaryOf cfg s = m0.signing := by
       unfold primaryOf; rw [hca, h0.man]
-    have := rotateKey_gcs (sc := sc) hca hb req ht1 ht2 (ht3 path0 h0.entry) s.reload hP
+    have hclaim : Claimed cfg req s ↔ claimed cfg req m0 = true := by
+      unfold Claimed
+      constructor
+      · rintro ⟨_, m, hm, hc⟩
+        rw [h0.man] at hm
+        injection hm with hm; injection hm with hm
+        rw [hm]; exact hc
+      · intro hc; exact ⟨hca, m0, h0.man, hc⟩
+    have := rotateKey_gcs (sc := sc) hca hb req ht1 ht2 s.reload hP
     cases hr : rotateKey cfg req sc s.reload with
     | ok k s' =>
       rw [hr] at this
-      obtain ⟨hk, mat, hinv, hdac⟩ := this
-      refine ⟨?_, hdac, ?_, by rw [hk, hp0]⟩
+      obtain ⟨hk, hcf, mat, hinv, hdac⟩ := this
+      refine ⟨?_, hdac, ?_, by rw [hk, hp0], ?_⟩
       · unfold Inv; rw [hca]; exact ⟨_, _, _, _, hinv⟩
       · unfold primaryOf; rw [hca, hinv.man, hk]; exact rotatedManifest_signing req
-    | err s' => rw [hr] at this; exact this
+      · rw [hclaim, hcf]; simp
+    | err s' =>
+      rw [hr] at this
+      refine ⟨this.1, ?_⟩
+      rcases this.2 with h | h
+      · exact Or.inl h
+      · rcases and_false_cases' h with h | h
+        · exact Or.inr (Or.inl h)
+        · exact Or.inr (Or.inr (hclaim.mpr h))
     | crash s' => rw [hr] at this; exact this
   | memca =>
     unfold Inv at hi; rw [hca] at hi
@@ -39,16 +61,27 @@ theorem rotate_run_facts (cfg : Cfg) (req : Req) (sc : Nat → Fault) (s : St)
       ⟨h0.transfer rfl rfl rfl rfl, rfl, rfl, fun e he => (by cases he), fun _ _ e => (by cases e), fun _ _ e => (by cases e)⟩
     have hp0 : primaryOf cfg s = s.memPrimary := by
       unfold primaryOf; rw [hca]
+    have hnc : ¬ Claimed cfg req s := by
+      rintro ⟨h, _⟩; rw [hca] at h; cases h
     have := rotateKey_mem (sc := sc) (ow := cfg.overwrite) hca hb req s.reload hP
     cases hr : rotateKey cfg req sc s.reload with
     | ok k s' =>
       rw [hr] at this
       obtain ⟨hk, hprim, mat, hinv, hdac⟩ := this
-      refine ⟨?_, hdac, ?_, by rw [hk, hp0]⟩
+      refine ⟨?_, hdac, ?_, by rw [hk, hp0], hnc⟩
       · unfold Inv; rw [hca]; exact ⟨_, _, hinv⟩
       · unfold primaryOf; rw [hca, hprim, hk]
-    | err s' => rw [hr] at this; exact this
+    | err s' =>
+      rw [hr] at this
+      exact ⟨this.1, this.2.imp (fun x => x) Or.inl⟩
     | crash s' => rw [hr] at this; exact this
+
+theorem not_claimed_of_unclaimed {cfg : Cfg} {req : Req} {s : St} (hu : Unclaimed cfg req s) : ¬ Claimed cfg req s := by
+  rintro ⟨hca, m, hm, hc⟩
+  unfold Unclaimed at hu
+  rw [hca] at hu
+  rw [hu m hm] at hc
+  cases hc
 
 /-- the same configuration with overwriting allowed -/
 def Cfg.allowOverwrite (cfg : Cfg) : Cfg := { cfg with overwrite := true }
@@ -160,25 +193,26 @@ theorem demoM_inv : Inv (demoCfg .memca) demoM := by
   refine ⟨⟨"rootcn", 1, 0, 0⟩, ⟨"sigcn", 2, 1, 0⟩, ?_⟩
   exact ⟨by decide, by decide, by decide, by decide, by decide, by decide, by decide, by decide, demoBump_ne_root⟩
 
-theorem demoG_fresh : Fresh (demoCfg .gcsca) ⟨"sig", 3⟩ demoG := by
+theorem demoG_manifest {m : Manifest} (hm : lookup demoG.store manifestName = some (.manifest m)) :
+    m = ⟨[("root", "certs/rootcn-1.crt"), ("sk", "certs/sigcn-2.crt")], "root", "sk"⟩ := by
+  have h : lookup demoG.store manifestName =
+      some (.manifest ⟨[("root", "certs/rootcn-1.crt"), ("sk", "certs/sigcn-2.crt")], "root", "sk"⟩) := by decide
+  rw [h] at hm
+  injection hm with hm
+  injection hm with hm
+  exact hm.symm
+
+/-- every request whose common name and serial give an object name other than "root.crt" is admissible
+    in `demoG` — including ⟨"sigcn", 2⟩, the request that names the PRIMARY's certificate object -/
+theorem demoG_fresh (req : Req) (h : objName (demoCfg .gcsca) req ≠ "root.crt") (h' : objName (demoCfg .gcsca) req ≠ manifestName) :
+    Fresh (demoCfg .gcsca) req demoG := by
   intro m hm
-  have : m = ⟨[("root", "certs/rootcn-1.crt"), ("sk", "certs/sigcn-2.crt")], "root", "sk"⟩ := by
-    have h : lookup demoG.store manifestName =
-        some (.manifest ⟨[("root", "certs/rootcn-1.crt"), ("sk", "certs/sigcn-2.crt")], "root", "sk"⟩) := by decide
-    rw [h] at hm
-    injection hm with hm
-    injection hm with hm
-    exact hm.symm
-  subst this
-  refine ⟨by decide, by decide, ?_⟩
-  intro p hp
-  have : p = "certs/sigcn-2.crt" := by
-    have h : lookup [("root", "certs/rootcn-1.crt"), ("sk", "certs/sigcn-2.crt")] "sk" = some "certs/sigcn-2.crt" := by decide
-    simp only at hp
-    rw [h] at hp
-    injection hp with hp
-    exact hp.symm
-  subst this
+  rw [demoG_manifest hm]
+  exact ⟨h', h⟩
+
+theorem demoG_unclaimed : Unclaimed (demoCfg .gcsca) ⟨"sig", 3⟩ demoG := by
+  intro m hm
+  rw [demoG_manifest hm]
   decide
 
 def failAt (n : Nat) : Nat → Fault := fun i => if i = n then .fail else .ok
